@@ -26,7 +26,11 @@ Bases == <<
   MT(<<P0(<<1, 2>>, <<3>>), PT(<<V0(1)>>, <<V0(2)>>, 1), PI(<<1>>, <<3>>, 2)>>),
   MT(<<P0(<<1>>, <<>>), P0(<<2>>, <<1>>), P0(<<3>>, <<1, 2>>), P0(<<4>>, <<1, 2, 3>>)>>),
   ST(<<1, 3>>, MT(<<P0(<<1, 3>>, <<2, 4>>), FT(P0(<<2, 4>>, <<>>), P0(<<4>>, <<>>)), P0(<<4>>, <<3>>)>>)),
-  MT(<<P0(<<3, 1, 2>>, <<4>>), ST(<<2>>, P0(<<2, 1>>, <<4, 3>>)), P0(<<4>>, <<>>), PT(<<V0(2), V0(1)>>, <<>>, 2), P0(<<2>>, <<1>>)>>)
+  MT(<<P0(<<3, 1, 2>>, <<4>>), ST(<<2>>, P0(<<2, 1>>, <<4, 3>>)), P0(<<4>>, <<>>), PT(<<V0(2), V0(1)>>, <<>>, 2), P0(<<2>>, <<1>>)>>),
+  \* counterfactual distributions: the same variable in several worlds on one side of the bar (the ordering given to
+  \* canonicalize ranks names only, so these variables tie)
+  MT(<<PT(<<VI(1, <<<<2, 1>>>>), VI(1, <<<<3, 1>>>>), VI(1, <<<<4, 1>>>>)>>, <<>>, 0), P0(<<2>>, <<3>>)>>),
+  MT(<<PT(<<VI(2, <<<<3, 1>>>>)>>, <<VI(1, <<<<2, 1>>>>), VI(1, <<<<3, 2>>>>), V0(4)>>, 0), P0(<<4>>, <<>>)>>)
 >>
 
 Permuted(s, q) == [i \in DOMAIN s |-> s[q[i]]]
@@ -71,7 +75,7 @@ Spec == Init /\ [][Permute]_vars
 \* design level: a permutation step never changes the denotation (generic distribution over 4 names)
 PermGraph == MkG(1..4, {<<u, v>> \in (1..4) \X (1..4) : u < v}, {s \in SUBSET (1..4) : Cardinality(s) = 2})
 PermModels(seed) == [p \in 0..2 |-> Model(PermGraph, CliqueLatents(PermGraph), Binary(PermGraph), [v \in 1..4 |-> p], seed)]
-PermSound == Check => \A s \in Seeds :
+PermSound == (Check /\ SingleWorld(Bases[base])) => \A s \in Seeds :
                 LET W == Bundle(PermModels(s), Dos(e) \cup Dos(Bases[base]))
                     c == CmpAt(W, e, Bases[base])
                 IN c.nbad = 0 /\ c.ndef > 0
